@@ -110,7 +110,8 @@ impl UtxosDelta {
 pub enum Network { Mainnet, Testnet, Regtest }
 pub struct Script { pub id: u64 }
 impl Script { pub uninterp spec fn bytes(&self) -> Seq<u8>; 
-  #[verifier::external_body] fn is_op_return(&self) -> (r: bool) { unimplemented!() } }
+  pub uninterp spec fn is_op_return_spec(&self) -> bool;
+  #[verifier::external_body] fn is_op_return(&self) -> (r: bool) ensures r == self.is_op_return_spec() { unimplemented!() } }
 pub struct AddrError { pub c: u8 }
 pub uninterp spec fn address_of_script(bytes: Seq<u8>, n: Network) -> Option<Address>;
 impl Address {
@@ -235,7 +236,150 @@ spec fn frame_ok(tx: &Transaction, u0: Map<OutPoint, (TxOut, Height)>, d0: &Utxo
     &&& forall|o: OutPoint| #[trigger] touched(o, u1, d1, g) ==> (touched(o, u0, d0, g) || o.txid == tx.id || is_input(tx, o))
     &&& forall|o: OutPoint| #[trigger] d1.all_removed_outpoints@.contains(o) ==> (d0.all_removed_outpoints@.contains(o) || is_input(tx, o))
 }
-pub struct UtxoSet { utxos: Utxos, balances: Balances, address_utxos: AddressIndex, network: Network, next_height: Height }
+#[derive(PartialEq, Eq, PartialOrd, Ord, Clone, Copy, Structural, Debug)]
+pub struct BlockHash(pub u64);
+pub struct Block { pub txs: Vec<Transaction>, pub hash: BlockHash }
+impl Block {
+    fn txdata(&self) -> (r: &[Transaction]) ensures r@ == self.txs@ { self.txs.as_slice() }
+    fn block_hash(&self) -> (r: &BlockHash) ensures *r == self.hash { &self.hash }
+}
+pub struct IngestingBlock {
+    pub block: Block,
+    pub next_tx_idx: usize,
+    pub next_input_idx: usize,
+    pub next_output_idx: usize,
+    stats: BlockIngestionStats,
+    utxos_delta: UtxosDelta,
+}
+
+// ---- C08 "schedule independent": what the UTXO map must be after a given amount of work, as a function of the block only ----
+type UMap = Map<OutPoint, (TxOut, Height)>;
+spec fn apply_ins(u: UMap, tx: &Transaction, a: int, b: int) -> UMap
+    decreases b - a
+{
+    if b <= a { u } else { apply_ins(u, tx, a, b - 1).remove(op_of(tx.ins@[b - 1].previous_output)) }
+}
+// a coinbase spends nothing
+spec fn ins_applied(u: UMap, tx: &Transaction, a: int, b: int) -> UMap { if tx.cb { u } else { apply_ins(u, tx, a, b) } }
+spec fn apply_outs(u: UMap, tx: &Transaction, a: int, b: int, h: Height) -> UMap
+    decreases b - a
+{
+    if b <= a { u } else {
+        let v = apply_outs(u, tx, a, b - 1, h);
+        if tx.outs@[b - 1].script_pubkey.is_op_return_spec() { v } else { v.insert(OutPoint { txid: tx.id, vout: (b - 1) as u32 }, (txout_of(tx.outs@[b - 1]), h)) }
+    }
+}
+spec fn apply_tx(u: UMap, tx: &Transaction, h: Height) -> UMap {
+    apply_outs(ins_applied(u, tx, 0, tx.ins@.len() as int), tx, 0, tx.outs@.len() as int, h)
+}
+spec fn apply_txs(u: UMap, txs: Seq<Transaction>, n: int, h: Height) -> UMap
+    decreases n
+{
+    if n <= 0 { u } else { apply_tx(apply_txs(u, txs, n - 1, h), &txs[n - 1], h) }
+}
+// the map after transactions 0..t, the first si inputs and the first so outputs of transaction t have been applied to g
+spec fn progress(g: UMap, b: &Block, t: int, si: int, so: int, h: Height) -> UMap {
+    if t >= b.txs@.len() { apply_txs(g, b.txs@, b.txs@.len() as int, h) }
+    else { apply_outs(ins_applied(apply_txs(g, b.txs@, t, h), &b.txs@[t], 0, si), &b.txs@[t], 0, so, h) }
+}
+proof fn lemma_apply_ins_compose(u: UMap, tx: &Transaction, a: int, m: int, b: int)
+    requires a <= m <= b,
+    ensures apply_ins(apply_ins(u, tx, a, m), tx, m, b) == apply_ins(u, tx, a, b),
+    decreases b - m
+{ if b > m { lemma_apply_ins_compose(u, tx, a, m, b - 1); } }
+proof fn lemma_apply_outs_compose(u: UMap, tx: &Transaction, a: int, m: int, b: int, h: Height)
+    requires a <= m <= b,
+    ensures apply_outs(apply_outs(u, tx, a, m, h), tx, m, b, h) == apply_outs(u, tx, a, b, h),
+    decreases b - m
+{ if b > m { lemma_apply_outs_compose(u, tx, a, m, b - 1, h); } }
+
+// doing the work from (si, so) to (i2, o2) inside transaction t moves the progress point accordingly
+proof fn lemma_progress_step(g: UMap, b: &Block, t: int, si: int, so: int, i2: int, o2: int, h: Height)
+    requires
+        0 <= t < b.txs@.len(), 0 <= si <= i2 <= b.txs@[t].ins@.len(), 0 <= so <= b.txs@[t].outs@.len(), 0 <= o2 <= b.txs@[t].outs@.len(),
+        so > 0 ==> si >= b.txs@[t].ins@.len(), o2 >= so,
+    ensures
+        apply_outs(ins_applied(progress(g, b, t, si, so, h), &b.txs@[t], si, i2), &b.txs@[t], so, o2, h) == progress(g, b, t, i2, o2, h),
+        progress(g, b, t, b.txs@[t].ins@.len() as int, b.txs@[t].outs@.len() as int, h) == progress(g, b, t + 1, 0, 0, h),
+{
+    let tx = &b.txs@[t];
+    let base = apply_txs(g, b.txs@, t, h);
+    if !tx.cb { lemma_apply_ins_compose(base, tx, 0, si, i2); }
+    if so == 0 {
+        lemma_apply_outs_compose(ins_applied(base, tx, 0, i2), tx, 0, 0, o2, h);
+    } else {
+        assert(i2 == si);
+        lemma_apply_outs_compose(ins_applied(base, tx, 0, si), tx, 0, so, o2, h);
+    }
+    if t + 1 < b.txs@.len() { assert(apply_txs(g, b.txs@, t + 1, h) == apply_tx(base, tx, h)); }
+    else { assert(apply_txs(g, b.txs@, t + 1, h) == apply_tx(base, tx, h)); }
+}
+// [assumption, stated] static facts of a transaction-valid block: transaction ids are pairwise different, no outpoint is spent twice,
+// no transaction spends an output of itself or of a later transaction; sizes below 2^32
+spec fn block_static(b: &Block) -> bool {
+    &&& forall|j: int, k: int| 0 <= j < k < b.txs@.len() ==> (#[trigger] b.txs@[j]).id != (#[trigger] b.txs@[k]).id
+    &&& forall|j: int, k: int, x: int, y: int| 0 <= j < k < b.txs@.len() && 0 <= x < b.txs@[j].ins@.len() && 0 <= y < b.txs@[k].ins@.len()
+            ==> #[trigger] op_of(b.txs@[j].ins@[x].previous_output) != #[trigger] op_of(b.txs@[k].ins@[y].previous_output)
+    &&& forall|j: int, k: int, x: int| 0 <= j <= k < b.txs@.len() && 0 <= x < b.txs@[j].ins@.len()
+            ==> (#[trigger] op_of(b.txs@[j].ins@[x].previous_output)).txid != (#[trigger] b.txs@[k]).id
+    &&& b.txs@.len() < 0x1_0000_0000
+    &&& forall|j: int| 0 <= j < b.txs@.len() ==> (#[trigger] b.txs@[j]).ins@.len() < 0x1_0000_0000 && b.txs@[j].outs@.len() < 0x1_0000_0000
+}
+// [assumption, stated] the rest of the block (transaction t from input si / output so, and every later transaction) is applicable
+spec fn block_domain(b: &Block, t: int, si: int, so: int, u: Map<OutPoint, (TxOut, Height)>, d: &UtxosDelta, g: Map<OutPoint, (TxOut, Height)>) -> bool {
+    &&& 0 <= t <= b.txs@.len()
+    &&& t < b.txs@.len() ==> tx_domain(&b.txs@[t], si, so, u, d, g) && (so > 0 ==> si >= b.txs@[t].ins@.len())
+    &&& forall|j: int| t < j < b.txs@.len() ==> tx_domain(&#[trigger] b.txs@[j], 0, 0, u, d, g)
+}
+// a step that respects the frame of transaction t keeps the LATER transactions applicable
+proof fn lemma_domain_step(b: &Block, t: int, u0: Map<OutPoint, (TxOut, Height)>, d0: &UtxosDelta, u1: Map<OutPoint, (TxOut, Height)>, d1: &UtxosDelta, g: Map<OutPoint, (TxOut, Height)>)
+    requires
+        block_static(b), 0 <= t < b.txs@.len(),
+        forall|j: int| t < j < b.txs@.len() ==> tx_domain(&#[trigger] b.txs@[j], 0, 0, u0, d0, g),
+        frame_ok(&b.txs@[t], u0, d0, u1, d1, g),
+    ensures
+        forall|j: int| t < j < b.txs@.len() ==> tx_domain(&#[trigger] b.txs@[j], 0, 0, u1, d1, g),
+{
+    let tx = &b.txs@[t];
+    assert forall|j: int| t < j < b.txs@.len() implies tx_domain(&#[trigger] b.txs@[j], 0, 0, u1, d1, g) by {
+        let tj = &b.txs@[j];
+        assert(tx_domain(tj, 0, 0, u0, d0, g));
+        assert forall|o: OutPoint| (o.txid == tj.id && 0 <= o.vout as int && (o.vout as int) < tj.outs@.len()) implies !#[trigger] touched(o, u1, d1, g) by {
+            if touched(o, u1, d1, g) {
+                assert(!touched(o, u0, d0, g));
+                assert(tx.id != tj.id);
+                if is_input(tx, o) { let a = choose|a: int| 0 <= a < tx.ins@.len() && #[trigger] op_of(tx.ins@[a].previous_output) == o; assert(op_of(b.txs@[t].ins@[a].previous_output).txid != b.txs@[j].id); }
+            }
+        }
+        if !tj.cb {
+            assert forall|i: int| 0 <= i < tj.ins@.len() implies !d1.all_removed_outpoints@.contains(#[trigger] op_of(tj.ins@[i].previous_output)) by {
+                let o = op_of(tj.ins@[i].previous_output);
+                if d1.all_removed_outpoints@.contains(o) {
+                    assert(!d0.all_removed_outpoints@.contains(o));
+                    let a = choose|a: int| 0 <= a < tx.ins@.len() && #[trigger] op_of(tx.ins@[a].previous_output) == o;
+                    assert(op_of(b.txs@[t].ins@[a].previous_output) != op_of(b.txs@[j].ins@[i].previous_output));
+                }
+            }
+        }
+    }
+}
+// [trusted:assumed-spec] Option<&(TxOut, Height)>::cloned: a copy of the pair
+#[verifier::external_body]
+fn vp_cloned(x: Option<&(TxOut, Height)>) -> (r: Option<(TxOut, Height)>) ensures r == (match x { Some(p) => Some(*p), None => None::<(TxOut, Height)> }) { unimplemented!() }
+pub struct UtxoSet { utxos: Utxos, balances: Balances, address_utxos: AddressIndex, network: Network, next_height: Height, ingesting_block: Option<IngestingBlock> }
+// C08: what every reader sees while a block is being ingested equals what it saw before the ingestion began (g), for every output
+// that pays an address; `paused_ok` is the invariant that holds at EVERY pause, whatever the schedule of the budget predicate
+spec fn paused_ok(s: &UtxoSet, g: Map<OutPoint, (TxOut, Height)>) -> bool {
+    s.ingesting_block matches Some(ib) ==> {
+        &&& ib.utxos_delta.wf()
+        &&& view_ok(s.utxos@, &ib.utxos_delta, g, s.network)
+        &&& block_static(&ib.block)
+        &&& block_domain(&ib.block, ib.next_tx_idx as int, ib.next_input_idx as int, ib.next_output_idx as int, s.utxos@, &ib.utxos_delta, g)
+        // schedule independence: the set is g with exactly the work up to the stored position applied
+        &&& s.utxos@ == progress(g, &ib.block, ib.next_tx_idx as int, ib.next_input_idx as int, ib.next_output_idx as int, s.next_height)
+        &&& ib.next_tx_idx < ib.block.txs@.len() ==> ib.next_input_idx <= ib.block.txs@[ib.next_tx_idx as int].ins@.len() && ib.next_output_idx <= ib.block.txs@[ib.next_tx_idx as int].outs@.len()
+    }
+}
 impl UtxoSet {
     fn insert_utxo(
         &mut self,
@@ -250,8 +394,9 @@ impl UtxoSet {
             !g.contains_key(outpoint), !old(utxos_delta).utxos@.contains_key(outpoint), !old(self).utxos@.contains_key(outpoint),
         ensures
             final(utxos_delta).wf(), view_ok(final(self).utxos@, final(utxos_delta), g, final(self).network),
-            final(self).network == old(self).network, final(self).next_height == old(self).next_height,
+            final(self).network == old(self).network, final(self).next_height == old(self).next_height, final(self).ingesting_block == old(self).ingesting_block,
             final(utxos_delta).all_removed_outpoints@ == old(utxos_delta).all_removed_outpoints@,
+            final(self).utxos@ == old(self).utxos@.insert(outpoint, (txout_of(output), old(self).next_height)),
             // only this outpoint is touched
             forall|o: OutPoint| o != outpoint ==> (final(self).utxos@.contains_key(o) == old(self).utxos@.contains_key(o) && final(utxos_delta).utxos@.contains_key(o) == old(utxos_delta).utxos@.contains_key(o)),
     {
@@ -312,19 +457,22 @@ impl UtxoSet {
             Self::outputs_fresh(tx, start_idx as int, old(self).utxos@, old(utxos_delta), g),
         ensures
             final(utxos_delta).wf(), view_ok(final(self).utxos@, final(utxos_delta), g, final(self).network),
-            final(self).network == old(self).network, final(self).next_height == old(self).next_height,
+            final(self).network == old(self).network, final(self).next_height == old(self).next_height, final(self).ingesting_block == old(self).ingesting_block,
             frame_ok(tx, old(self).utxos@, old(utxos_delta), final(self).utxos@, final(utxos_delta), g),
             // a pause names the first output that has NOT been inserted; it lies in the range still to do
             r matches Slicing::Paused(k) ==> start_idx <= k < tx.outs@.len() && Self::outputs_fresh(tx, k as int, final(self).utxos@, final(utxos_delta), g),
+            // exactly the outputs from start_idx up to the pause (or all of them) have been inserted into the set
+            final(self).utxos@ == apply_outs(old(self).utxos@, tx, start_idx as int, (match r { Slicing::Paused(k) => k as int, Slicing::Done(_) => if tx.outs@.len() >= start_idx { tx.outs@.len() as int } else { start_idx as int } }), old(self).next_height),
     {
         let mut vp_vout: usize = 0;
         for output in it: tx.output().iter()
             invariant
                 vp_vout == it.index@, tx.outs@.len() < 0x1_0000_0000,
                 utxos_delta.wf(), view_ok(self.utxos@, utxos_delta, g, self.network),
-                self.network == old(self).network, self.next_height == old(self).next_height,
+                self.network == old(self).network, self.next_height == old(self).next_height, self.ingesting_block == old(self).ingesting_block,
                 Self::outputs_fresh(tx, if it.index@ >= start_idx { it.index@ as int } else { start_idx as int }, self.utxos@, utxos_delta, g),
                 frame_ok(tx, old(self).utxos@, old(utxos_delta), self.utxos@, utxos_delta, g),
+                self.utxos@ == apply_outs(old(self).utxos@, tx, start_idx as int, if it.index@ >= start_idx { it.index@ as int } else { start_idx as int }, old(self).next_height),
         {
             let vout = vp_vout;
             vp_vout = vp_vout + 1;
@@ -380,8 +528,10 @@ impl UtxoSet {
             // the transaction's own outputs are not touched by the removal of its inputs
             forall|o: OutPoint| o.txid == tx.id ==> #[trigger] touched(o, final(self).utxos@, final(utxos_delta), g) == touched(o, old(self).utxos@, old(utxos_delta), g),
             final(utxos_delta).wf(), view_ok(final(self).utxos@, final(utxos_delta), g, final(self).network),
-            final(self).network == old(self).network, final(self).next_height == old(self).next_height,
+            final(self).network == old(self).network, final(self).next_height == old(self).next_height, final(self).ingesting_block == old(self).ingesting_block,
             r matches Slicing::Paused(k) ==> start_idx <= k < tx.ins@.len() && Self::inputs_unspent(tx, k as int, final(utxos_delta)),
+            // exactly the inputs from start_idx up to the pause (or all of them) have been removed from the set
+            final(self).utxos@ == ins_applied(old(self).utxos@, tx, start_idx as int, (match r { Slicing::Paused(k) => k as int, Slicing::Done(_) => if tx.ins@.len() >= start_idx { tx.ins@.len() as int } else { start_idx as int } })),
     {
         if tx.is_coinbase() {
             return Slicing::Done(());
@@ -394,8 +544,9 @@ impl UtxoSet {
                 forall|i: int| 0 <= i < tx.ins@.len() ==> (#[trigger] op_of(tx.ins@[i].previous_output)).txid != tx.id,
                 forall|o: OutPoint| o.txid == tx.id ==> #[trigger] touched(o, self.utxos@, utxos_delta, g) == touched(o, old(self).utxos@, old(utxos_delta), g),
                 frame_ok(tx, old(self).utxos@, old(utxos_delta), self.utxos@, utxos_delta, g),
+                !tx.cb, self.utxos@ == apply_ins(old(self).utxos@, tx, start_idx as int, if it.index@ >= start_idx { it.index@ as int } else { start_idx as int }),
                 utxos_delta.wf(), view_ok(self.utxos@, utxos_delta, g, self.network),
-                self.network == old(self).network, self.next_height == old(self).next_height,
+                self.network == old(self).network, self.next_height == old(self).next_height, self.ingesting_block == old(self).ingesting_block,
                 Self::inputs_unspent(tx, if it.index@ >= start_idx { it.index@ as int } else { start_idx as int }, utxos_delta),
         {
             let input_idx = vp_idx;
@@ -483,9 +634,16 @@ impl UtxoSet {
             tx_domain(tx, start_input_idx as int, start_output_idx as int, old(self).utxos@, old(utxos_delta), g),
             // outputs are only begun once all inputs are done
             start_output_idx > 0 ==> start_input_idx >= tx.ins@.len(),
+            start_input_idx <= tx.ins@.len(), start_output_idx <= tx.outs@.len(),
         ensures
+            // exactly the work between the start position and the pause position (or the end) has been done
+            final(self).utxos@ == (match r {
+                Slicing::Paused(p) => apply_outs(ins_applied(old(self).utxos@, tx, start_input_idx as int, p.0 as int), tx, start_output_idx as int, p.1 as int, old(self).next_height),
+                Slicing::Done(_) => apply_outs(ins_applied(old(self).utxos@, tx, start_input_idx as int, tx.ins@.len() as int), tx, start_output_idx as int, tx.outs@.len() as int, old(self).next_height),
+            }),
+            r matches Slicing::Paused(p) ==> p.0 >= start_input_idx && p.1 >= start_output_idx,
             final(utxos_delta).wf(), view_ok(final(self).utxos@, final(utxos_delta), g, final(self).network),
-            final(self).network == old(self).network, final(self).next_height == old(self).next_height,
+            final(self).network == old(self).network, final(self).next_height == old(self).next_height, final(self).ingesting_block == old(self).ingesting_block,
             frame_ok(tx, old(self).utxos@, old(utxos_delta), final(self).utxos@, final(utxos_delta), g),
             // a pause names the position to resume from, and the rest of the transaction is still in the domain there
             r matches Slicing::Paused(p) ==> p.0 <= tx.ins@.len() && p.1 <= tx.outs@.len() && (p.1 > 0 ==> p.0 >= tx.ins@.len())
@@ -504,6 +662,109 @@ impl UtxoSet {
         }
 
         Slicing::Done(())
+    }
+
+    // the reader: the ingesting block's changes are reverted
+    fn get_utxo(&self, outpoint: &OutPoint) -> (r: Option<(TxOut, Height)>)
+        requires self.ingesting_block matches Some(b) ==> b.utxos_delta.wf(),
+        ensures r == (match self.ingesting_block {
+            Some(b) => rview(self.utxos@, &b.utxos_delta, *outpoint),
+            None => if self.utxos@.contains_key(*outpoint) { Some(self.utxos@[*outpoint]) } else { None::<(TxOut, Height)> },
+        }),
+    {
+        // Revert any changes to the UTXOs that were done by the ingesting block.
+        if let Some(b) = &self.ingesting_block {
+            if b.utxos_delta.is_outpoint_removed(outpoint) {
+                // The UTXO was removed by the ingesting block.
+                // Revert that removal by returning the UTXO.
+                return vp_cloned(b.utxos_delta.get_utxo(outpoint));
+            }
+
+            if b.utxos_delta.is_outpoint_added(outpoint) {
+                // The UTXO was added by the ingesting block.
+                // Revert that addition by returning `None`.
+                return None;
+            }
+        };
+
+        // No modifications done by the ingesting block. Return the UTXO from the stable set.
+        self.utxos.get(outpoint)
+    }
+
+    fn ingest_block_continue(
+        &mut self,
+        Ghost(g): Ghost<Map<OutPoint, (TxOut, Height)>>,
+    ) -> (r: Option<Slicing<(), (BlockHash, BlockIngestionStats)>>)
+        requires paused_ok(old(self), g), old(self).next_height < u32::MAX,
+        ensures
+            // at EVERY pause the readers' view is the one from before the ingestion began
+            r matches Some(Slicing::Paused(_)) ==> final(self).ingesting_block is Some && paused_ok(final(self), g)
+                && final(self).next_height == old(self).next_height,
+            // ... and when the block is done the set is g with the WHOLE block applied: a function of g and the block only, whatever the schedule was
+            r matches Some(Slicing::Done(_)) ==> final(self).ingesting_block is None && final(self).next_height == old(self).next_height + 1
+                && (old(self).ingesting_block matches Some(ib) ==> final(self).utxos@ == apply_txs(g, ib.block.txs@, ib.block.txs@.len() as int, old(self).next_height)),
+    {
+        let ins_start = performance_counter();
+
+        let IngestingBlock {
+            block,
+            next_tx_idx,
+            mut next_input_idx,
+            mut next_output_idx,
+            mut utxos_delta,
+            mut stats,
+        } = self.ingesting_block.take()?;
+
+        let mut vp_tx_idx: usize = 0;
+        for tx in it: block.txdata().iter()
+            invariant
+                vp_tx_idx == it.index@, self.ingesting_block is None, self.next_height == old(self).next_height,
+                block_static(&block), utxos_delta.wf(), view_ok(self.utxos@, &utxos_delta, g, self.network),
+                block_domain(&block, if it.index@ >= next_tx_idx { it.index@ as int } else { next_tx_idx as int }, next_input_idx as int, next_output_idx as int, self.utxos@, &utxos_delta, g),
+                it.index@ > next_tx_idx ==> next_input_idx == 0 && next_output_idx == 0,
+                self.utxos@ == progress(g, &block, if it.index@ >= next_tx_idx { it.index@ as int } else { next_tx_idx as int }, next_input_idx as int, next_output_idx as int, self.next_height),
+                (if it.index@ >= next_tx_idx { it.index@ as int } else { next_tx_idx as int }) < block.txs@.len() ==> next_input_idx <= block.txs@[if it.index@ >= next_tx_idx { it.index@ as int } else { next_tx_idx as int }].ins@.len() && next_output_idx <= block.txs@[if it.index@ >= next_tx_idx { it.index@ as int } else { next_tx_idx as int }].outs@.len(),
+                old(self).ingesting_block matches Some(ib) && ib.block == block,
+        {
+            let tx_idx = vp_tx_idx;
+            vp_tx_idx = vp_tx_idx + 1;
+            if tx_idx >= next_tx_idx {
+            proof { assert(*tx == block.txs@[tx_idx as int]); }
+            let ghost u0 = self.utxos@; let ghost d0 = utxos_delta; let ghost si0 = next_input_idx as int; let ghost so0 = next_output_idx as int;
+            if let Slicing::Paused((next_input_idx, next_output_idx)) = self.ingest_tx_with_slicing(
+                tx,
+                next_input_idx,
+                next_output_idx,
+                &mut utxos_delta,
+                &mut stats,
+                Ghost(g),
+            ) {
+                proof { lemma_domain_step(&block, tx_idx as int, u0, &d0, self.utxos@, &utxos_delta, g);
+                    lemma_progress_step(g, &block, tx_idx as int, si0, so0, next_input_idx as int, next_output_idx as int, self.next_height); }
+                // Getting close to the the instructions limit. Pause execution.
+                self.ingesting_block = Some(IngestingBlock {
+                    block,
+                    next_tx_idx: tx_idx,
+                    next_input_idx,
+                    next_output_idx,
+                    utxos_delta,
+                    stats,
+                });
+
+                return Some(Slicing::Paused(()));
+            }
+            proof { lemma_domain_step(&block, tx_idx as int, u0, &d0, self.utxos@, &utxos_delta, g);
+                lemma_progress_step(g, &block, tx_idx as int, si0, so0, tx.ins@.len() as int, tx.outs@.len() as int, self.next_height); }
+
+            // Current transaction was processed in full. Reset the indices for next transaction.
+            next_input_idx = 0;
+            next_output_idx = 0;
+            }
+        }
+
+        // Block ingestion complete.
+        self.next_height += 1;
+        Some(Slicing::Done((*block.block_hash(), stats)))
     }
 }
 }
